@@ -110,6 +110,7 @@ let fmsel_of_sx = function
 let op_of_sx (name : string) (ps : sx list) : opk =
   match name, ps with
   | "map", [f] -> OMap (fn1_of_sx f)
+  | ("observe_on_keep" | "subscribe_on_keep"), [] -> OMap FId   (* with a synchronous scheduler: the identity *)
   | "filter", [p] -> OFilter (pred_of_sx p)
   | "take", [n] -> OTake (atom_nat n)
   | "take_while", [p] -> OTakeWhile (pred_of_sx p)
@@ -169,6 +170,7 @@ let rec pipe_of_sx (x : sx) : pipe =
   | L [A "from_iter_repeat"; v] -> PRepeat (val_of_sx v)   (* from_iter (iter::repeat v): the same endless stream *)
   | L [A "defer"; p] -> PDefer (pipe_of_sx p)
   | L [A "start"; c] -> PStart (atom_nat c)
+  | L [A "defer_built"; c] -> PDefer (PStart (atom_nat c))   (* defer with a counting factory: call k builds just k *)
   | L [A "result_ok"; v] -> PFromResult (Inl (val_of_sx v))
   | L [A "result_err"; e] -> PFromResult (Inr (atom_nat e))
   | L [A "hot"; h] -> PHot (atom_nat h)
